@@ -68,9 +68,17 @@ func (s *TFIDFSearcher) buildIndex() {
 	}
 
 	// Step 2: Build vocabulary index
+	// (words are taken in sorted order so that term indexes, and with them the order of
+	// every floating-point sum below, do not depend on map iteration order)
 	s.vocabulary = make(map[string]int)
 	vocabIndex := 0
-	for word, docCount := range wordCounts {
+	sortedWords := make([]string, 0, len(wordCounts))
+	for word := range wordCounts {
+		sortedWords = append(sortedWords, word)
+	}
+	sort.Strings(sortedWords)
+	for _, word := range sortedWords {
+		docCount := wordCounts[word]
 		// Include unique terms (docCount >= 1) as they are highly discriminating
 		// Upper bound at 80% to exclude only very common terms
 		maxDocs := len(s.commands) * 8 / 10
@@ -107,7 +115,8 @@ func (s *TFIDFSearcher) buildIndex() {
 		s.commandTF[i] = make(map[int]float64)
 		var norm float64
 
-		for termIdx, count := range termCounts {
+		for _, termIdx := range sortedKeys(termCounts) {
+			count := termCounts[termIdx]
 			tf := float64(count) / float64(len(words))
 			tfidf := tf * s.idf[termIdx]
 			s.commandTF[i][termIdx] = tfidf
@@ -164,7 +173,8 @@ func (s *TFIDFSearcher) Search(query string, limit int) []TFIDFResult {
 
 	// Calculate query TF-IDF
 	var queryNorm float64
-	for termIdx, count := range queryTermCounts {
+	for _, termIdx := range sortedKeys(queryTermCounts) {
+		count := queryTermCounts[termIdx]
 		tf := float64(count) / float64(len(queryTokens))
 		tfidf := tf * s.idf[termIdx]
 		queryVector[termIdx] = tfidf
@@ -211,13 +221,24 @@ func (s *TFIDFSearcher) cosineSimilarity(queryVector map[int]float64, queryNorm 
 	}
 
 	var dotProduct float64
-	for termIdx, queryTFIDF := range queryVector {
+	for _, termIdx := range sortedKeys(queryVector) {
 		if docTFIDF, exists := docVector[termIdx]; exists {
-			dotProduct += queryTFIDF * docTFIDF
+			dotProduct += queryVector[termIdx] * docTFIDF
 		}
 	}
 
 	return dotProduct / (queryNorm * docNorm)
+}
+
+// sortedKeys returns the keys of m in increasing order, so that sums over m are
+// accumulated in one fixed order (floating-point addition is not associative).
+func sortedKeys[V any](m map[int]V) []int {
+	keys := make([]int, 0, len(m))
+	for k := range m {
+		keys = append(keys, k)
+	}
+	sort.Ints(keys)
+	return keys
 }
 
 // GetVocabularyStats returns statistics about the built vocabulary
